@@ -40,6 +40,7 @@ func runC10(c *Ctx) {
 	ruleScannerWhitespace(c, "C10.14")
 	ruleNextStopsAtEOF(c, "C10.15")
 	ruleNoGlobalState(c, "C10.16", "sql", "engine")
+	ruleStatementTextUnmodified(c, "C10.17")
 }
 
 // ---- C10.1 --------------------------------------------------------------------
@@ -208,11 +209,28 @@ func c10EndOfInput(c *Ctx, rule string) {
 		}
 		return true
 	})
+	if len(got) == 0 {
+		// a table instead of a switch: `parse, ok := table[cur.Type]; …; return parse(p)`
+		inspectBody(disp.Decl.Body, func(x ast.Node) bool {
+			if ix, ok := x.(*ast.IndexExpr); ok {
+				if tbl := tableLiteral(disp, ix.X); tbl != nil && strings.HasSuffix(exprKey(ix.Index), ".Type") {
+					for k, v := range tbl {
+						got[k] = methodNamed(disp, v)
+					}
+				}
+			}
+			return true
+		})
+	}
 	var kws []string
 	for k := range want {
 		kws = append(kws, k)
 	}
 	sort.Strings(kws)
+	if len(got) == 0 {
+		c.Undecided(rule, disp.Name+"|dispatch", "no dispatch on the statement keyword recognised in %s (neither a switch nor a table)", disp.Name)
+		kws = nil
+	}
 	for _, k := range kws {
 		c.Check(got[k] == want[k], rule, disp.Name+"|dispatch|"+k, disp.Decl.Pos(), k+" -> "+want[k], "statement keyword "+k+" is dispatched to "+got[k]+", expected "+want[k])
 	}
